@@ -9,7 +9,7 @@ out = ["# Seeded changes\n",
        "was given only the text of one property and a scratch worktree of /repo, and was confirmed here: it applies,",
        "the 496-test suite still passes with it, the demo fails with it and passes without it.  None is committed to /repo.",
        "`harness/run_all_seeds.sh` re-applies each one and expects `VIOLATION property=<id>` from that property's check.",
-       "Thirteen batches were produced (two changes per property and batch, numbered consecutively); a `note` records when a",
+       "Fourteen batches were produced (two changes per property and batch, numbered consecutively); a `note` records when a",
        "patch had to be rebased because a genuine defect in the same lines was repaired in /repo in the meantime.\n",
        "| change | files | what it needs to manifest | reported by | note |", "|---|---|---|---|---|"]
 
